@@ -710,10 +710,177 @@ def history_stream(ctx, res):
                         break
 
 
+def adopted_and_copied_stream(ctx, res):
+    """which key file a configuration uses is decided by where it is NOW: (a) a configuration that was built, read and serialised on its
+    own (so it used the default key file, rightly) and is then attached to a tree whose root names a key file — as a list item, as the
+    value of a config-type field, as a section — stores its secrets under the root's key file from then on, at every depth;
+    (b) a deep copy of a whole tree that is given another key file stores every secret — list items and items of items included —
+    under the copy's key file, while the original keeps its own"""
+    import base64
+    import cincoconfig as cc
+    from cincoconfig.encryption import KeyFile, SecureValue
+    tmp = ctx.tmpdir()
+    n = [0]
+
+    def newkey():
+        n[0] += 1
+        p = os.path.join(tmp, "ad%d.key" % n[0])
+        with open(p, "wb") as fp:
+            fp.write(os.urandom(32))
+        return p
+
+    def opens_with(keypath, stored, plaintext):
+        try:
+            with KeyFile(keypath) as kf:
+                return kf.decrypt(SecureValue(stored["method"], base64.b64decode(stored["ciphertext"]))) == plaintext.encode()
+        except Exception:  # noqa
+            return False
+
+    def stored_secrets(tree, prefix=""):
+        out = []
+        if isinstance(tree, dict):
+            if set(tree) == {"method", "ciphertext"}:
+                return [(prefix, tree)]
+            for k, v in tree.items():
+                out += stored_secrets(v, prefix + "." + str(k) if prefix else str(k))
+        elif isinstance(tree, list):
+            for i, v in enumerate(tree):
+                out += stored_secrets(v, "%s[%d]" % (prefix, i))
+        return out
+
+    for method in ("xor", "aes"):
+        member = cc.Schema()
+        member.password = cc.SecureField(method=method)
+        member.auth.token = cc.SecureField(method=method)
+        Member = cc.make_type(member, "AdMember%d" % n[0])
+        group = cc.Schema()
+        group.secret = cc.SecureField(method=method)
+        group.members = cc.ListField(Member, default=lambda: [])
+        Group = cc.make_type(group, "AdGroup%d" % n[0])
+        s = cc.Schema()
+        s.secret = cc.SecureField(method=method)
+        s.groups = cc.ListField(Group, default=lambda: [])
+        s.one = Member
+        s.section.token = cc.SecureField(method=method)
+        s.section.inner.token = cc.SecureField(method=method)
+        # (a)
+        for used in ("read", "to_tree", "dumps", "validate", "nothing"):
+            for route in ("append", "assign-list", "config-type-field", "nested-list"):
+                kroot = newkey()
+                root = s(key_filename=kroot)
+                root.secret = "adopt-root"
+                m = Member(password="adopt-pw", auth={"token": "adopt-tok"})
+                g = Group(secret="adopt-group")
+                g.members.append(Member(password="adopt-inner", auth={"token": "adopt-inner-tok"}))
+                for obj in (m, g):
+                    try:
+                        if used == "read":
+                            obj._keyfile
+                        elif used == "to_tree":
+                            obj.to_tree()
+                        elif used == "dumps":
+                            obj.dumps(format="json")
+                        elif used == "validate":
+                            obj.validate()
+                    except Exception:  # noqa
+                        pass
+                case = {"stream": "adopted", "method": method, "used_on_its_own": used, "route": route}
+                res.case(stable(case), kind="adopted:" + route)
+                try:
+                    if route == "append":
+                        root.groups.append(g)
+                        root.groups[0].members.append(m)
+                    elif route == "assign-list":
+                        g.members.append(m)
+                        root.groups = [g]
+                    elif route == "config-type-field":
+                        root.one = m
+                        root.groups = [g]
+                    else:
+                        root.groups = [Group(secret="adopt-group")]
+                        root.groups[0].members = [g.members[0], m]
+                    tree = root.to_tree()
+                except Exception as e:  # noqa
+                    res.violate("C03:dumps-raised", "attaching / serialising raised %s" % type(e).__name__, dict(case, error=str(e)[:160]))
+                    continue
+                plain = {"adopt-root", "adopt-pw", "adopt-tok", "adopt-group", "adopt-inner", "adopt-inner-tok"}
+                wrong = [p for p, st in stored_secrets(tree) if not any(opens_with(kroot, st, t) for t in plain)]
+                if wrong:
+                    res.violate("C03:wrong-key:adopted", "a configuration that was used on its own before it was attached to a tree does not store its secrets under the key file "
+                                "of the tree it now belongs to", dict(case, not_under_the_roots_key_file=wrong[:6]))
+                    continue
+                fresh = s(key_filename=kroot)
+                try:
+                    fresh.loads(root.dumps(format="json"), format="json")
+                    same = fresh.to_tree(sensitive_mask=None) is not None and plain_view(fresh) == plain_view(root)
+                except Exception as e:  # noqa
+                    same = False
+                if not same:
+                    res.violate("C03:reload-differs", "loading the document with the root's key file does not give the secrets back", dict(case))
+        # (b)
+        for depth_of_change in ("copy-root", "copy-then-edit"):
+            ka, kb = newkey(), newkey()
+            orig = s(key_filename=ka)
+            orig.secret = "copy-root"
+            orig.section.token = "copy-sec"
+            orig.section.inner.token = "copy-inner"
+            orig.one = Member(password="copy-one", auth={"token": "copy-one-tok"})
+            orig.groups = [Group(secret="copy-g0"), Group(secret="copy-g1")]
+            orig.groups[0].members = [Member(password="copy-m0", auth={"token": "copy-t0"}), Member(password="copy-m1", auth={"token": "copy-t1"})]
+            orig.groups[1].members.append(Member(password="copy-m2", auth={"token": "copy-t2"}))
+            dup = copy.deepcopy(orig)
+            dup._key_filename = kb
+            if depth_of_change == "copy-then-edit":
+                dup.groups[0].members[1].password = "copy-m1"          # assigned again, on the copy
+                dup.groups.append(Group(secret="copy-g0"))
+            plain = {"copy-root", "copy-sec", "copy-inner", "copy-one", "copy-one-tok", "copy-g0", "copy-g1", "copy-m0", "copy-m1", "copy-m2", "copy-t0", "copy-t1", "copy-t2"}
+            case = {"stream": "copied", "method": method, "history": depth_of_change}
+            res.case(stable(case), kind="copied:" + depth_of_change)
+            try:
+                tdup, torig = dup.to_tree(), orig.to_tree()
+            except Exception as e:  # noqa
+                res.violate("C03:dumps-raised", "serialising a copy raised %s" % type(e).__name__, dict(case, error=str(e)[:160]))
+                continue
+            wrong = [p for p, st in stored_secrets(tdup) if not any(opens_with(kb, st, t) for t in plain)]
+            wrong_o = [p for p, st in stored_secrets(torig) if not any(opens_with(ka, st, t) for t in plain)]
+            if wrong or wrong_o:
+                res.violate("C03:wrong-key:copy", "after a deep copy was given its own key file, a secret of the copy is not stored under the copy's key file (or one of the "
+                            "original no longer under the original's)", dict(case, copy_not_under_its_key_file=wrong[:6], original_not_under_its_key_file=wrong_o[:6]))
+                continue
+            fresh = s(key_filename=kb)
+            try:
+                fresh.loads(dup.dumps(format="json"), format="json")
+                same = plain_view(fresh) == plain_view(dup)
+            except Exception:  # noqa
+                same = False
+            if not same:
+                res.violate("C03:reload-differs", "a new configuration with the copy's key file cannot load what the copy saved", dict(case))
+
+
+def plain_view(cfg):
+    """every secret as plaintext, by reading the fields"""
+    def walk(c):
+        out = {}
+        for k, f in c._schema._fields.items():
+            try:
+                v = c[k]
+            except Exception:  # noqa
+                continue
+            if hasattr(v, "_schema"):
+                out[k] = walk(v)
+            elif isinstance(v, list):
+                out[k] = [walk(x) if hasattr(x, "_schema") else x for x in v]
+            elif not callable(v):
+                out[k] = v
+        return out
+    return walk(cfg)
+
+
 def run(ctx, n_quick=150, n_thorough=4000):
     res = Result()
     guard(res, "C03", rehome_stream, ctx, res, ctx.n(30, 800))
     guard(res, "C03", history_stream, ctx, res)
+    guard(res, "C03", adopted_and_copied_stream, ctx, res)
     tmp, _ = P.setup(ctx)
     home = os.environ["HOME"]
     reqs, pend, sessions = [], [], []
